@@ -185,7 +185,7 @@ def core_op(h, o, rng, weights=None, reject=False):
         h.ops.append(f"{op} {v}{suf}")
 
 
-def iter_program(h, o, rng, allow_add=True):
+def iter_program(h, o, rng, allow_add=True, p_fail=0.0):
     """it_new then next/mutate steps; at most one structural change per yielded element"""
     s = h.sh[o]
     suf = h.suffix(o)
@@ -216,7 +216,7 @@ def iter_program(h, o, rng, allow_add=True):
                 h.ops.append("it_index")
         elif r < 0.45 and allow_add:
             v = h.val()
-            h.ops.append(f"it_add {v}")
+            h.ops.append(f"it_add {v}" + (" fail=1" if rng.random() < p_fail else ""))
             s.xs.insert(pos, s.norm(v))
             pos += 1
         elif r < 0.65:
@@ -227,7 +227,7 @@ def iter_program(h, o, rng, allow_add=True):
             h.ops.append(rng.choice([f"get_at {idx(rng, len(s.xs))}{suf}", f"size{suf}", f"get_last{suf}"]))
 
 
-def zip_program(h, o1, o2, rng, allow_add=True):
+def zip_program(h, o1, o2, rng, allow_add=True, p_fail=0.0):
     s1, s2 = h.sh[o1], h.sh[o2]
     h.ops.append(f"zit_new o={o1} o2={o2}")
     pos = 0
@@ -250,7 +250,7 @@ def zip_program(h, o1, o2, rng, allow_add=True):
                 h.ops.append("zit_remove")
         elif r < 0.45 and allow_add:
             v1, v2 = h.val(), h.val()
-            h.ops.append(f"zit_add {v1} {v2}")
+            h.ops.append(f"zit_add {v1} {v2}" + (f" fail={rng.choice([1, 1, 2])}" if rng.random() < p_fail else ""))
             s1.xs.insert(pos, s1.norm(v1))
             s2.xs.insert(pos, s2.norm(v2))
             pos += 1
@@ -308,7 +308,7 @@ class ArraySizedGen:
         if focus in ("fault", "all"):
             out += self.fault_seeds(tier)
         if focus in ("reject", "all"):
-            out += self._small_reject(quick)
+            out += self._small_reject(quick, extreme=(focus == "reject"))
         return out
 
     def _small_core(self, quick, reject=False):
@@ -399,7 +399,7 @@ class ArraySizedGen:
                                ["remove_all", "trim_capacity", "add 1", "add 2", "trim_capacity", "destroy"])
         return out
 
-    def _small_reject(self, quick):
+    def _small_reject(self, quick, extreme=True):
         out = []
         B0 = [0, 1, 2, 3, 2**31, 2**63, SIZE_MAX - 1, SIZE_MAX]
         for dl in (1, 2, 3, 8, 17):
@@ -408,8 +408,33 @@ class ArraySizedGen:
                 for i in B0 + wrap_indices(dl, n):
                     out.append(base + [f"get_at {i}", f"peek {i}", f"remove_at {i}", f"replace_at 9 {i}", f"add_at 9 {i}",
                                        f"swap_at {i} 0", f"swap_at 0 {i}", f"swap_at {i} {i}", f"mk_sub {i} {i} to=1", f"mk_sub 0 {i} to=2", "destroy"])
+                pass
+        # accepted extreme capacities make the harness report an absurd request: `reject` focus only
+        for line in (self._extreme_news() if extreme else []):
+            out.append([line, "add 1", "get_at 0", "size", "destroy"])
+        out.append(["new esize=2 cap=2 exp=2", f"new o=1 esize=8 cap={2**61} exp=1.1", "new o=2 esize=0 cap=4", "add 1", "add 2 o=1", "add 3 o=2", "destroy"])   # both rejected, nothing allocated
+        for dl in (1, 3):
+            for n in range(0, 3):
+                base = [f"new esize={dl} cap=2 exp=2"] + [f"add {i + 1}" for i in range(n)]
                 out.append(base + [f"add {n}", f"remove {n}", "remove 77", "index_of 77", "contains 77", "get_last", "remove_last", "filter_mut p=all",
                                    "mk_filter p=all to=1", "it_new", "it_remove", "it_replace 4", "destroy"])
+        return out
+
+    def _extreme_news(self):
+        """constructor lines with element size 0 and capacities around 2^64 / esize (the byte count
+        capacity * esize wraps around size_t just above); accepted ones ask for an absurd buffer,
+        which the harness allocator refuses (CC_ERR_ALLOC)"""
+        out = []
+        CCMAX = 2**64 - 2
+        for dl in (1, 2, 3, 8, 17):
+            q = CCMAX // dl
+            caps = {q - 1, q, q + 1, 2**64 // dl, -(-2**64 // dl), -(-2**64 // dl) + 1, 2**63, 2**62, 2**61, 2**41, SIZE_MAX, SIZE_MAX - 1}
+            for cap in sorted(c for c in caps if 0 < c <= SIZE_MAX):
+                for ex in ("1.1", "2"):
+                    out.append(f"new esize={dl} cap={cap} exp={ex}")
+        for cap in (0, 1, 8, 2**63, SIZE_MAX):
+            out.append(f"new esize=0 cap={cap} exp=2")
+        out.append("new_default esize=0")
         return out
 
     def fault_seeds(self, tier):
@@ -420,6 +445,8 @@ class ArraySizedGen:
              "add 9 o=1", "add 9 o=2", "add 9 o=3", "add 9 o=3", "destroy"],
             ["new esize=1 cap=1 exp=3", "add 1", "it_new", "it_next", "it_add 5", "it_next", "it_add 6", "it_next", "foreach", "destroy"],
             ["new esize=17 cap=2 exp=1.1", "add 1", "add 2", "remove_all", "trim_capacity", "add 3", "add 4", "add 5", "destroy"],
+            ["new esize=2 cap=1 exp=2", "new o=1 esize=3 cap=2 exp=2", "add 1", "add 11 o=1", "add 12 o=1", "zit_new o=0 o2=1",
+             "zit_next", "zit_add 7 17", "zit_next", "zit_index", "zit_add 8 18", "zit_next", "foreach_zip o=0 o2=1", "destroy"],
         ]
 
     # ------------------------------------------------------------------ random
@@ -434,6 +461,9 @@ class ArraySizedGen:
         cap = rng.choice([1, 1, 2, 3, 4, 5, 8, 16])
         ex = rng.choice(FACTORS)
         h = Hist(rng, dl, cap, ex, make_pool(rng, dl))
+        if focus == "reject" and rng.random() < 0.05:
+            # a constructor call that must be rejected (or refused): the rest of the history has no object
+            return [rng.choice(self._extreme_news()), "add 1", "size", "destroy"]
         length = rng.randint(1, 60 if dl <= 3 else 40)
         w = {}
         if focus == "growth":
@@ -446,8 +476,8 @@ class ArraySizedGen:
             length = rng.randint(3, 14)
         else:
             w = {"add": rng.choice([2, 4, 6]), "add_at": 2, "remove_all": 0.3, "filter_mut": 0.6, "map": 0.5}
-        p_iter = {"iter": 0.25, "all": 0.06}.get(focus, 0)
-        p_zip = {"iter": 0.08, "all": 0.03}.get(focus, 0)
+        p_iter = {"iter": 0.25, "all": 0.06, "fault": 0.08}.get(focus, 0)
+        p_zip = {"iter": 0.08, "all": 0.03, "fault": 0.08}.get(focus, 0)
         p_der = {"derived": 0.15, "all": 0.05, "fault": 0.15}.get(focus, 0)
         p_sort = {"sort": 0.2, "all": 0.04}.get(focus, 0)
         p_fail = {"all": 0.05}.get(focus, 0)
@@ -461,7 +491,7 @@ class ArraySizedGen:
                 o = live[0]
             r = rng.random()
             if r < p_iter:
-                iter_program(h, o, rng, allow_it_add)
+                iter_program(h, o, rng, allow_it_add, p_fail=4 * p_fail)
             elif r < p_iter + p_zip:
                 if 1 not in h.sh:
                     dl2 = rng.choice(ESIZES)
@@ -471,9 +501,9 @@ class ArraySizedGen:
                         v = h.val()
                         h.ops.append(f"add {v} o=1")
                         h.sh[1].xs.append(h.sh[1].norm(v))
-                # zit_add under a refusal advances the cursor although nothing was inserted
-                # (corpus/array_sized/defect_zip_iter_add_refused.ops); refusals are never put on zit_add
-                zip_program(h, 0, 1, rng, allow_add=True)
+                # (a refused zit_add used to advance the cursor: repaired as A8,
+                # corpus/array_sized/zip_iter_add_refused.ops)
+                zip_program(h, 0, 1, rng, allow_add=True, p_fail=4 * p_fail)
             elif r < p_iter + p_zip + p_der:
                 free = [k for k in range(1, 4) if k not in h.sh]
                 if free and rng.random() < 0.75:
